@@ -192,6 +192,20 @@ def cmpName : Ordering → Str | .lt => S "lt" | .eq => S "eq" | .gt => S "gt"
 
 def msgPrefix (s : String) : Str := (s.splitOn ":").head!.trimAscii.toString.toList
 
+
+/-- the harness' `deep_object(kind, d)`: objects nested `d` levels below their top-level values -/
+def deepObject (kind d : Nat) : JVal :=
+  let rec go : Nat → Nat → JVal × JVal → JVal × JVal
+    | 0, _, acc => acc
+    | n + 1, i, (v, w) =>
+      go n (i + 1) (.arr [v],
+        if i % 3 = 0 then .obj [(S "flat", .num (S "1")), (S "k", w)] else .arr [.num (S "0"), w])
+  let (v, w) := go d 0 (.num (S "1"), .obj [(S "s", .str (S "x"))])
+  if kind = 0 then .obj [(S "n", v)]
+  else if kind = 1 then .obj [(S "a", .num (S "1")), (S "n", w), (S "z", .arr [.arr []])]
+  else if kind = 2 then .obj [(S "a", v), (S "b", .obj [(S "c", v)])]
+  else .obj []
+
 def answer (req : JVal) : Str :=
   match req with
   | .arr (.str op :: args) =>
@@ -259,9 +273,17 @@ def answer (req : JVal) : Str :=
       | _ => S "badreq"
     else if op = S "json" then
       match args with
-      | [.str t] => match parseJson t with
+      | [.str t] => match parseJsonLim t with
         | some v => S "ok " ++ v.render
         | none => S "err"
+      | _ => S "badreq"
+    else if op = S "toodeep" then
+      match args with
+      | [k, d] => (match asNat? k, asNat? d with
+        | some kind, some depth => (match deepObject kind depth with
+          | .obj o => if isTooDeep o then S "true" else S "false"
+          | _ => S "badreq")
+        | _, _ => S "badreq")
       | _ => S "badreq"
     else if op = S "sha" then
       match args with | [.str t] => Hreal (utf8 t) | _ => S "badreq"
